@@ -1516,3 +1516,4 @@ mut("table_builder_flush_unwrapped", ["C08", "C09"], "ERR-6|tables::table_builde
     note="a failed flush of a table file panics the flushing / compacting thread instead of being reported")
 mut("log_writer_flush_unwrapped", ["C08", "C09"], "ERR-6|logs::LogWriter::emit_block|callee=std::io::Write::flush", patch="log_writer_flush_unwrapped.diff",
     note="a failed WAL flush panics the writer")
+benign_patch("refactor_s12_02", "benign/set12_02_overlap_tests_map_or.diff", note='get_overlapping_compaction_inputs: before / after tests as map_or over the widening accumulators (benign twin of seed C01-T)')
